@@ -700,7 +700,11 @@ class Tuple(SerializableBase):
         self._prim_seq: Tuple[SERIALIZABLE_TYPE] = tuple(args)
 
     def calc_size(self):
-        return sum(p.calc_size() for p in self._prim_seq)
+        sizes = [p.calc_size() for p in self._prim_seq]
+        # Not a fixed size if any of our members aren't
+        if any(size is None for size in sizes):
+            return None
+        return sum(sizes)
 
     def serialize(self, vals, writer: BufferWriter, ctx: Optional[ParseContext]):
         ctx = ParseContext(vals, parent=ctx)
